@@ -399,7 +399,16 @@ def h_decode_bytes(n):
         enc = ("ascii", "latin1")[p.choose(2, "enc")]
         out = getattr(F.decode, enc)(bs)
         other = getattr(F.decode, enc)(12345)
-        return dict(bs=bs, out=out, enc=enc, other=other)
+        # a filter callable looked up first and used after ANOTHER decode.<enc> was looked up still decodes with its own codec
+        e1, e2 = [("utf8", "latin1"), ("latin1", "utf8")][p.choose(2, "held_then_other")]
+        held = getattr(F.decode, e1)
+        getattr(F.decode, e2)
+        held_out = held(b"\xc3\xa9")
+
+        class Text(str):
+            """text that is already decoded and carries its own type (e.g. markupsafe.Markup)"""
+        t = Text("t\xe9xt")
+        return dict(bs=bs, out=out, enc=enc, other=other, held=(e1, e2, held_out), same=getattr(F.decode, enc)(t) is t)
     return h
 
 
@@ -419,6 +428,12 @@ def on_decode_bytes(p, r, exc, acc):
             acc.candidate(kind="decode-bytes", input=dict(filter="decode." + r["enc"], bytes=repr(r["bs"].concretize(mod))), detail="")
     if r["other"] != "12345":
         acc.candidate(kind="decode-object", input=dict(filter="decode." + r["enc"], object=12345), detail="returned %r" % (r["other"],))
+    acc.vcs += 2
+    e1, e2, held_out = r["held"]
+    if held_out != b"\xc3\xa9".decode(e1):
+        acc.candidate(kind="decode-held", input=dict(filter="decode." + e1, then="decode." + e2, held=True), detail="decoded as %r" % (held_out,))
+    if not r["same"]:
+        acc.candidate(kind="decode-subclass", input=dict(filter="decode." + r["enc"], subclass=True), detail="a str subclass instance is not returned unchanged")
     acc.sample(dict(filter="decode." + r["enc"], bytes=repr(r["bs"].concretize(m))))
 
 
@@ -517,7 +532,20 @@ def markup_ok(out, text):
     if re.search(r"&(?!(amp|lt|gt|quot|apos|#34|#39);)", out): return False
     return ref_unescape(out) == text
 bad = None
-if "bytes" in CASE or "object" in CASE:
+if "held" in CASE:
+    enc, other = CASE["filter"].split(".")[1], CASE["then"].split(".")[1]
+    f = getattr(filters.decode, enc); getattr(filters.decode, other)
+    out = f(b"\\xc3\\xa9")
+    print("decode.%%s looked up, then decode.%%s looked up, then the first applied to b'\\\\xc3\\\\xa9' -> %%r" %% (enc, other, out))
+    if out != b"\\xc3\\xa9".decode(enc): bad = "a held decode.<enc> callable decodes with another codec"
+elif "subclass" in CASE:
+    enc = CASE["filter"].split(".")[1]
+    class Text(str): pass
+    t = Text("text")
+    out = getattr(filters.decode, enc)(t)
+    print("decode.%%s(<str subclass instance>) returns the same object:" %% enc, out is t, type(out).__name__)
+    if out is not t: bad = "text that is already str (a subclass instance) is not passed through unchanged"
+elif "bytes" in CASE or "object" in CASE:
     enc = CASE["filter"].split(".")[1]
     val = eval(CASE["bytes"]) if "bytes" in CASE else CASE["object"]
     out = getattr(filters.decode, enc)(val)
